@@ -162,15 +162,34 @@ Example lx_ctor_differing :
   linker_ctor_M [(0%nat, mkSub (mkSpan SList [5; 6; 7]) 1 0); (1%nat, mkSub (mkSpan SList [5; 6; 8]) 0 3)] None
   = Raise InitialisationError.
 Proof. reflexivity. Qed.
-(* NumPy-array / pandas-Index spans: `comparator.span != base.span` is an array, its truth value undefined:
-   two submodels with IDENTICAL array spans cannot be linked (new finding) *)
-Lemma ctor_array_spans_refuted :
-  exists subs, (forall ic, In ic subs -> si_span (snd ic) = mkSpan SArray [1; 2]) /\ (2 <= length subs)%nat /\
-               linker_ctor_M subs None = Raise ValueError.
-Proof.
-  exists [(0%nat, mkSub (mkSpan SArray [1; 2]) 0 0); (1%nat, mkSub (mkSpan SArray [1; 2]) 0 0)].
-  split; [|split; [cbn; lia|reflexivity]]. intros ic [<-|[<-|[]]]; reflexivity.
-Qed.
+(* since fix ee9fcdf: identical NumPy-array spans are accepted (they raised ValueError before) ... *)
+Example lx_ctor_array_spans_accepted :
+  linker_ctor_M [(0%nat, mkSub (mkSpan SArray [1; 2]) 0 1); (1%nat, mkSub (mkSpan SArray [1; 2]) 2 0)] None
+  = Ret (mkSpan SArray [1; 2], 2, 1).
+Proof. reflexivity. Qed.
+(* ... and so are PeriodIndex spans, and a list next to a range / an array / an Index with equal elements
+   (before the fix `[5, 6, 7] != range(5, 8)` was True: rejected) — the linker keeps the FIRST submodel's container *)
+Example lx_ctor_mixed_integer_kinds_accepted :
+  linker_ctor_M [(0%nat, mkSub (mkSpan SList [5; 6; 7]) 0 0); (1%nat, mkSub (mkSpan SRange [5; 6; 7]) 1 0);
+                 (2%nat, mkSub (mkSpan SArray [5; 6; 7]) 0 2); (3%nat, mkSub (mkSpan SIndex [5; 6; 7]) 0 0);
+                 (4%nat, mkSub (mkSpan STuple [5; 6; 7]) 0 0)] None
+  = Ret (mkSpan SList [5; 6; 7], 1, 2) /\
+  linker_ctor_M [(0%nat, mkSub (mkSpan SPeriodIndex [2000; 2001]) 0 0); (1%nat, mkSub (mkSpan SPeriodIndex [2000; 2001]) 0 0)] None
+  = Ret (mkSpan SPeriodIndex [2000; 2001], 0, 0).
+Proof. split; reflexivity. Qed.
+(* same numbers, different element classes (integers vs Periods vs Timestamps): differing spans; empty spans of any kinds: equal *)
+Example lx_ctor_element_classes :
+  linker_ctor_M [(0%nat, mkSub (mkSpan SList [2000; 2001]) 0 0); (1%nat, mkSub (mkSpan SPeriodIndex [2000; 2001]) 0 0)] None
+  = Raise InitialisationError /\
+  linker_ctor_M [(0%nat, mkSub (mkSpan SPeriodIndex [2000]) 0 0); (1%nat, mkSub (mkSpan SDatetimeIndex [2000]) 0 0)] None
+  = Raise InitialisationError /\
+  linker_ctor_M [(0%nat, mkSub (mkSpan SArray [2000; 2001]) 0 0); (1%nat, mkSub (mkSpan SArray [2000; 2002]) 0 0)] None
+  = Raise InitialisationError /\
+  linker_ctor_M [(0%nat, mkSub (mkSpan SIndex [2000; 2001]) 0 0); (1%nat, mkSub (mkSpan SIndex [2000]) 0 0)] None
+  = Raise InitialisationError /\
+  linker_ctor_M [(0%nat, mkSub (mkSpan SList []) 0 0); (1%nat, mkSub (mkSpan SDatetimeIndex []) 0 0)] None
+  = Ret (mkSpan SList [], 0, 0).
+Proof. repeat split. Qed.
 
 (* ---------------- one model in a linker vs the model itself ---------------- *)
 Definition lx_single (d : mdesc) : flstate := mkL (mkComp (mkDesc [] [] 0 0) (mkState [] U3 [-1; -1; -1] [])) [(0%nat, mkComp d lx_mA)] [].
